@@ -4,6 +4,7 @@ import Zrnt.Config.C14Driver
 import Zrnt.Fault.Driver
 import Zrnt.Beacon.C02Driver
 import Zrnt.Beacon.BlockDriver
+import Zrnt.Beacon.GenesisDriver
 import Zrnt.Gossip.Driver
 import Zrnt.SSZ.Driver
 import Zrnt.Shuffle.Driver
@@ -18,6 +19,7 @@ def modes : List Mode := [
   Zrnt.Fault.c18Mode,
   Zrnt.Beacon.c02Mode,
   Zrnt.Beacon.Block.c01Mode, Zrnt.Beacon.Block.c03Mode, Zrnt.Beacon.Block.blockWhyMode,
+  Zrnt.Beacon.Genesis.c13Mode,
   Zrnt.Gossip.Driver.c12Mode,
   Zrnt.SSZ.Driver.sszMode,
   Zrnt.SSZ.Driver.sszStateMode,
